@@ -24,8 +24,7 @@ func copyFacts(m map[Lit]bool) map[Lit]bool {
 
 // factsOnEdge: literals holding when control goes from pred to succ.
 func (w *World) factsOnEdge(pred, succ *ssa.BasicBlock) map[Lit]bool {
-	f := w.Facts(pred.Parent())
-	out := copyFacts(f.At(pred))
+	out := copyFacts(w.noUp(pred))
 	n := 0
 	idx := -1
 	for i, s := range pred.Succs {
@@ -43,9 +42,26 @@ func (w *World) factsOnEdge(pred, succ *ssa.BasicBlock) map[Lit]bool {
 }
 
 // Leaves expands v, used at instruction `at`, through phis and local cells down to non-phi values.
-func (w *World) Leaves(v ssa.Value, at ssa.Instruction) []Leaf {
-	f := w.Facts(at.Parent())
-	base := copyFacts(f.At(at.Block()))
+// A call to a transparent helper is expanded into the values its success returns may yield (with the facts at
+// those returns added).
+func (w *World) Leaves(v ssa.Value, at ssa.Instruction) []Leaf { return w.leavesX(v, at, true, false) }
+
+// LeavesErr additionally expands the error result of a transparent helper into the error values of the helper's
+// returns compatible with what is known about that result at the use.
+func (w *World) LeavesErr(v ssa.Value, at ssa.Instruction) []Leaf { return w.leavesX(v, at, true, true) }
+
+func (w *World) leaves(v ssa.Value, at ssa.Instruction, deep bool) []Leaf {
+	return w.leavesX(v, at, deep, false)
+}
+
+func (w *World) leavesX(v ssa.Value, at ssa.Instruction, deep, expandErr bool) []Leaf {
+	var base map[Lit]bool
+	if deep {
+		base = copyFacts(w.noUp(at.Block()))
+	} else {
+		base = copyFacts(w.factsOf(at.Parent()).in[at.Block()])
+	}
+	busy := map[*ssa.Function]bool{}
 	var out []Leaf
 	seen := map[ssa.Value]bool{}
 	var rec func(v ssa.Value, facts map[Lit]bool, user ssa.Instruction)
@@ -84,11 +100,48 @@ func (w *World) Leaves(v ssa.Value, at ssa.Instruction) []Leaf {
 							return
 						}
 						for _, s := range rs {
-							sf := copyFacts(w.Facts(s.Parent()).At(s.Block()))
+							var sf map[Lit]bool
+							if deep {
+								sf = copyFacts(w.noUp(s.Block()))
+							} else {
+								sf = copyFacts(w.factsOf(s.Parent()).in[s.Block()])
+							}
 							rec(s.Val, sf, s)
 						}
 						return
 					}
+				}
+			}
+		}
+		if deep {
+			if c, h, idx := w.asCallResult(v); h != nil && w.transparent(h) && !busy[h] && (expandErr || errorResultIndex(h) != idx) {
+				// the returns of the helper compatible with what is known about its error result at the use
+				rets := liveReturns(h)
+				if ei := errorResultIndex(h); ei >= 0 {
+					var ev ssa.Value = c
+					if h.Signature.Results().Len() > 1 {
+						ev = extractOf(c, ei)
+					}
+					if ev != nil {
+						if isNil, known := w.factsOf(at.Parent()).knownNilIn(facts, ev); known {
+							rets, _ = w.outcomeReturns(h, ei, isNil, true, false)
+						}
+					}
+				}
+				if len(rets) > 0 {
+					busy[h] = true
+					for _, r := range rets {
+						if idx >= len(r.Results) {
+							continue
+						}
+						rf := copyFacts(facts)
+						for l := range w.noUp(r.Block()) {
+							rf[l] = true
+						}
+						rec(r.Results[idx], rf, r)
+					}
+					delete(busy, h)
+					return
 				}
 			}
 		}
@@ -135,6 +188,8 @@ var nonNilCtors = map[string]bool{
 	"go.uber.org/multierr.Append": false,
 }
 
+var errClassifiers = map[string]bool{"os.IsNotExist": true, "os.IsExist": true, "os.IsPermission": true, "os.IsTimeout": true, "errors.Is": true, "errors.As": true}
+
 // NonNil decides whether value v (an error or pointer) is certainly non-nil, given literals facts.
 func (w *World) NonNil(v ssa.Value, facts map[Lit]bool) bool {
 	return w.nonNil(v, facts, 0)
@@ -149,6 +204,12 @@ func (w *World) nonNil(v ssa.Value, facts map[Lit]bool, depth int) bool {
 	for l := range facts {
 		if y, isNil, ok := nilTest(l); ok && !isNil && (throughCell(strip(y)) == sv || y == v) {
 			return true
+		}
+		// os.IsNotExist(err), errors.Is(err, x), ... are true only for a non-nil err
+		if cl, ok := l.V.(*ssa.Call); ok && l.Pol && errClassifiers[calleeName(cl)] && len(cl.Call.Args) > 0 {
+			if a := throughCell(strip(cl.Call.Args[0])); a == sv {
+				return true
+			}
 		}
 	}
 	switch x := v.(type) {
@@ -291,6 +352,24 @@ func (w *World) MayBeNilReturns(fn *ssa.Function) []*ssa.Return {
 	if idx < 0 {
 		return returnsOf(fn)
 	}
+	if w.mbn == nil {
+		w.mbn = map[*ssa.Function][]*ssa.Return{}
+		w.mbnBusy = map[*ssa.Function]bool{}
+	}
+	if r, ok := w.mbn[fn]; ok {
+		return r
+	}
+	if w.mbnBusy[fn] {
+		return returnsOf(fn) // recursive: assume any return may succeed
+	}
+	w.mbnBusy[fn] = true
+	defer func() { delete(w.mbnBusy, fn) }()
+	out := w.mayBeNilReturns(fn, idx)
+	w.mbn[fn] = out
+	return out
+}
+
+func (w *World) mayBeNilReturns(fn *ssa.Function, idx int) []*ssa.Return {
 	var out []*ssa.Return
 	for _, r := range returnsOf(fn) {
 		may := false
